@@ -10,6 +10,10 @@ for fl in ("smallcache", "cap64"):
             continue  # skipped because the first flavour already reported a violation
         print(f"HARNESS-ERROR: missing evidence fragment {p}", file=sys.stderr); sys.exit(2)
     frags.append(json.load(open(p)))
+seq = None
+ps = os.path.join(verif, "shuttle17", "target", "evidence-sequential.json")
+if os.path.exists(ps):
+    seq = json.load(open(ps))
 ex = sum(f["executions"] for f in frags)
 distinct = sum(f["distinct_traces"] for f in frags)
 wall = time.time() - t0
@@ -22,10 +26,11 @@ doc = {
     "coverage": {
         "evaluations": ex,
         "distinct_nontrivial": distinct,
-        "rule": "one evaluation = one shuttle execution (one complete interleaving chosen by the seeded random or PCT scheduler) of an explicit multi-thread request scenario against the real plan cache; distinct_nontrivial = number of distinct execution traces, a trace being the sequence of (thread, request start/end, block size, cache keys in insertion order) events; an execution is non-trivial by construction (>= 2 threads, each >= 1 request, pool of sizes larger than the capacity)",
+        "rule": "(the count below is shuttle executions; the sequential histories against the real non-shuttle cache are reported separately under sequential_histories_against_the_real_cache) one evaluation = one shuttle execution (one complete interleaving chosen by the seeded random or PCT scheduler) of an explicit multi-thread request scenario against the real plan cache; distinct_nontrivial = number of distinct execution traces, a trace being the sequence of (thread, request start/end, block size, cache keys in insertion order) events; an execution is non-trivial by construction (>= 2 threads, each >= 1 request, pool of sizes larger than the capacity)",
         "samples": [{"flavour": f["flavour"], "scenario": f["sample_scenario"]} for f in frags],
         "flavours": [{k: f[k] for k in ("flavour", "capacity", "scenarios", "executions", "schedules_per_scenario", "distinct_traces", "trace_events", "probes", "wall_s", "violations")} for f in frags],
         "probes": probes,
+        "sequential_histories_against_the_real_cache": seq,
         "schedulers": ["shuttle RandomScheduler (seeded)", "shuttle PctScheduler (seeded, depth 2-4)"],
         "fault_kinds": {"client_crash_inside_plan_generation": probes.get("client_crash_inside_plan_generation", 0), "client_stops_early": "in ~1/8 of threads", "thundering_herd": "shape 'herd'", "eviction_pressure": "pool of sizes > capacity in every scenario"},
         "simulated_time": "not applicable (no clock); scheduling points = every Mutex acquire/release, thread spawn/join",
@@ -38,7 +43,7 @@ doc = {
         "only synchronisation that goes through the imported Mutex/Arc names is controlled; a change that adds a different primitive by full path would run unscheduled",
     ],
     "wall_s": wall,
-    "violations": sum(f["violations"] for f in frags),
+    "violations": sum(f["violations"] for f in frags) + (seq["violations"] if seq else 0),
 }
 os.makedirs(os.path.join(verif, "evidence"), exist_ok=True)
 json.dump(doc, open(os.path.join(verif, "evidence", "C17.json"), "w"), indent=1)
